@@ -701,7 +701,10 @@ class Eval:
     e_ExprWithCleanups = e_ParenExpr
     e_MaterializeTemporaryExpr = e_ParenExpr
     e_CXXBindTemporaryExpr = e_ParenExpr
-    e_SubstNonTypeTemplateParmExpr = e_ParenExpr
+
+    def e_SubstNonTypeTemplateParmExpr(self, n):
+        xs = [x for x in n.get("inner", []) if not x.get("kind", "").endswith("Decl")]
+        return self.expr(xs[-1]) if xs else Opaque("subst")
 
     def e_CXXDefaultArgExpr(self, n):
         return Opaque("default-arg")
@@ -710,6 +713,10 @@ class Eval:
         return Opaque("nullptr")
 
     def e_UnaryExprOrTypeTraitExpr(self, n):
+        if n.get("name") == "sizeof" and n.get("argtype"):
+            ty = self.ity(n["argtype"])
+            if ty in sym.TYBITS:
+                return const(max(1, sym.TYBITS[ty] // 8), "u64")
         return Opaque("sizeof")
 
     def e_CXXThisExpr(self, n):
@@ -1983,3 +1990,103 @@ class ParseEval(Eval):
         if not items:
             return []
         return items
+
+
+# ====================================================================================== runtime templates
+class RuntimeEval(Eval):
+    """One instantiation of slice::read_le/read_be or Builder::write_le/write_be: the constant loop is unrolled and the
+    result (resp. the pushed bytes) is compared bit by bit with the reference byte order."""
+
+    def __init__(self, mod, cls, name, targs, fn):
+        super().__init__(mod, cls, fn, "runtime")
+        self.tname, self.nbytes = targs[0], int(targs[1])
+        self.fname = name
+        self.pushed = []
+        self.skips = []
+        self.result = None
+        self.problems = []
+
+    def setup(self, ps):
+        for p in ps:
+            t = strip_cv(p["type"])
+            if "vector" in t:
+                self.vars[p["name"]] = VecV("output", const(0, "u64"))
+            else:
+                ty = self.ity(p.get("dtype") or t) or self.ity(self.tname)
+                self.vars[p["name"]] = sym.sym("value", ty, 0, sym.TYMAX.get(ty))
+
+    def e_ConditionalOperator(self, n):
+        cn, a, b = n["inner"]
+        if any(x.get("kind") == "DeclRefExpr" and (x.get("ref") or {}).get("name") == "__assert_fail" for x in walk(b)):
+            return Opaque("precondition")
+        return super().e_ConditionalOperator(n)
+
+    def obj_call(self, base, name, av, n, me):
+        if name == "at":
+            i = self.as_int(av[0])
+            if i is None or not i.is_const():
+                self.problems.append("at() with a non-constant index")
+                return self.fresh("byte", "u8")
+            return sym.sym(f"byte{i.cval()}", "u8", 0, 255)
+        if name == "skip":
+            self.skips.append(self.as_int(av[0]))
+            return Opaque("void")
+        return super().obj_call(base, name, av, n, me)
+
+    def vec_call(self, v, name, av, n):
+        if name == "push_back":
+            e = self.as_int(av[0])
+            self.pushed.append(e)
+            return Opaque("void")
+        return super().vec_call(v, name, av, n)
+
+    def convert(self, v, ty, what, explicit=False):
+        if v.ty == ty:
+            return v
+        if v.is_const():
+            return sym.cast(v, ty)
+        return E("cast", (v,), ty)
+
+    def s_ReturnStmt(self, s):
+        v = self.expr(s["inner"][0]) if s.get("inner") else None
+        v = v.get() if isinstance(v, Ref) else v
+        self.result = v
+        raise Ret(v)
+
+    def verdict(self):
+        """-> list of problems (empty if the instantiation is the reference byte order)"""
+        out = list(self.problems)
+        n = self.nbytes
+        le = self.fname.endswith("_le")
+        if self.fname.startswith("read"):
+            if not isinstance(self.result, E):
+                return out + ["no integer result"]
+            width = sym.TYBITS.get(self.result.ty or self.ity(self.tname), 64)
+            bits = sym._bits_of(self.result, self.env, 64, structural=True)
+            for i in range(n):
+                pos = 8 * i if le else 8 * (n - 1 - i)
+                for j in range(8):
+                    b = bits[pos + j] if pos + j < len(bits) else 0
+                    if b != (f"byte{i}", j):
+                        out.append(f"bit {pos + j} of the result is {b}, expected bit {j} of input byte {i}")
+                        return out
+            for k in range(8 * n, width):
+                if bits[k] != 0:
+                    out.append(f"bit {k} of the result above the {n} bytes read is {bits[k]}")
+                    return out
+            if not self.skips or not all(isinstance(s, E) and s.is_const() and s.cval() == n for s in self.skips):
+                out.append(f"the slice is not advanced by exactly {n} byte(s)")
+        else:
+            if len(self.pushed) != n:
+                return out + [f"{len(self.pushed)} byte(s) appended instead of {n}"]
+            for i, e in enumerate(self.pushed):
+                if not isinstance(e, E):
+                    out.append(f"byte {i} is not an integer expression")
+                    return out
+                bits = sym._bits_of(e, self.env, 64, structural=True)
+                pos = 8 * i if le else 8 * (n - 1 - i)
+                for j in range(8):
+                    if bits[j] != ("value", pos + j):
+                        out.append(f"output byte {i} bit {j} is {bits[j]}, expected bit {pos + j} of the value")
+                        return out
+        return out
